@@ -107,6 +107,8 @@ type subState struct {
 	Notes       map[string]any   `json:"notes,omitempty"`
 	Sums        map[string]int64 `json:"sums,omitempty"`
 	Maxs        map[string]int64 `json:"maxs,omitempty"`
+	Mins        map[string]int64 `json:"mins,omitempty"`
+	Partial     string           `json:"partial,omitempty"`
 	ord         int
 	owned       int
 	journal     bool
@@ -230,6 +232,21 @@ func (s *Sub[C]) MaxNote(k string, n int) {
 	}
 }
 
+// MinNote keeps the minimum of a measure in the evidence (e.g. the bound completed by
+// every shard of a scenario).
+func (s *Sub[C]) MinNote(k string, n int) {
+	if s.st.Mins == nil {
+		s.st.Mins = map[string]int64{}
+	}
+	if v, ok := s.st.Mins[k]; !ok || int64(n) < v {
+		s.st.Mins[k] = int64(n)
+	}
+}
+
+// Incomplete says that part of the sub-check's stated space was not covered (a scenario
+// ended below its target bound): the evidence then reports exhaustive:false.
+func (s *Sub[C]) Incomplete(reason string) { s.st.Partial = reason }
+
 // Count adds explicit evaluation/state/transition counts (explorer-driven sub-checks).
 func (s *Sub[C]) Count(evals, states, transitions int64) {
 	s.st.Evals += evals
@@ -248,7 +265,7 @@ const skipAll = 1 << 30
 // loop if the deadline did not cut it short). The counters are reported right
 // away, so they survive a later crash of the worker.
 func (s *Sub[C]) Done() {
-	if s.st.started && !s.st.w.Expired() {
+	if s.st.started && !s.st.w.Expired() && s.st.Partial == "" {
 		s.st.Complete = true
 	}
 	if !s.st.emitted && s.st.w.replaySub == "" {
@@ -653,6 +670,14 @@ func runParent(cfg Config, tier string, seed int64, budget time.Duration) int {
 					if n, ok := a.Notes[k].(int64); !ok || v > n {
 						a.Notes[k] = v
 					}
+				}
+				for k, v := range s.Mins {
+					if n, ok := a.Notes[k].(int64); !ok || v < n {
+						a.Notes[k] = v
+					}
+				}
+				if s.Partial != "" {
+					a.Notes["partial"] = s.Partial
 				}
 			}
 		}
